@@ -189,7 +189,7 @@ fn chk_dict<H: AsRef<[usize]> + SelectUnchecked + SelectZeroUnchecked>(ctx: &mut
     for q in queries(s, u) {
         let direct = [ef.succ(q), ef.succ_strict(q), ef.pred(q), ef.pred_strict(q)];
         if via_ref(ef, q) != direct || via_ref(&ef, q) != direct {
-            ctx.violation(&format!("C04|EliasFano<{name}>::<Succ/Pred through a reference>|wrong-answer"), format!("query {q}: calls through &EliasFano give {:?}, direct calls give {direct:?}", via_ref(ef, q)));
+            ctx.violation(&format!("C04|EliasFano<{name}>::<Succ/Pred-through-a-reference>|wrong-answer"), format!("query {q}: calls through &EliasFano give {:?}, direct calls give {direct:?}", via_ref(ef, q)));
         }
         let key = |c: &str| format!("C04|EliasFano<{name}>::{c}|wrong-answer");
         let io = ef.index_of(q);
